@@ -230,3 +230,5 @@ func classify(rootKind string, root interface{}, ptr string) (owner, self, last 
 	}
 	return owner, kind, toks[len(toks)-1]
 }
+
+func newRefTarget() interface{} { return new(spec.Ref) }
